@@ -1404,8 +1404,8 @@ def main(chk: C.Check, build: C.Build) -> None:
     fam_counts: dict[str, Any] = {}
     #        names, depth, fraction in thorough, fraction in quick
     plan = [(1, 2, 1.0, 0.25), (1, 3, 1.0, 0.25), (1, 4, 1.0, 0.1), (2, 2, 1.0, 0.1),
-            (2, 3, 1.0, 0.009), (3, 2, 0.06, 0.009),
-            (2, 4, 0.0015, 0.0003), (3, 3, 0.00025, 0.00005), (3, 4, 0.0000013, 0.00000025)]
+            (2, 3, 1.0, 0.009), (3, 2, 0.04, 0.009),
+            (2, 4, 0.001, 0.0003), (3, 3, 0.00017, 0.00005), (3, 4, 0.0000009, 0.00000025)]
     for k, d, f_th, f_q in plan:
         shapes = fam_shapes(k)
         total = len(shapes) ** d
@@ -1426,7 +1426,7 @@ def main(chk: C.Check, build: C.Build) -> None:
         fam_counts[f"names={k},depth={d}"] = {"space": total, "run": n, "complete": p >= 1.0}
     # the blank family: empty / whitespace / silent bodies, nested required blocks, if / for wrappers
     bl_plan = [(1, 2, 1.0, 0.25), (1, 3, 1.0, 0.03), (2, 2, 1.0, 0.02),
-               (1, 4, 0.03, 0.002), (2, 3, 0.0006, 0.00006), (3, 2, 0.0012, 0.0001)]
+               (1, 4, 0.02, 0.002), (2, 3, 0.0004, 0.00006), (3, 2, 0.0008, 0.0001)]
     for k, d, f_th, f_q in bl_plan:
         shapes = bl_shapes(k)
         total = len(shapes) ** d
@@ -1452,7 +1452,7 @@ def main(chk: C.Check, build: C.Build) -> None:
         if r.random() < 0.03 and len(tpls) > 1:
             cases.append((tpls, ("wrap", [(r.random() < 0.5, entry[1])]), limit, c[3] if len(c) > 3 else True))
             fam_wrapped += 1
-    nrand = 300 if not thorough else 4000
+    nrand = 300 if not thorough else 3000
     for _ in range(nrand):
         cases.append(rand_case(r, thorough) + (r.random() < 0.75,))
     # configuration axes: markup characters in literal text / in render data with auto-escape on / off;
@@ -1469,7 +1469,7 @@ def main(chk: C.Check, build: C.Build) -> None:
             n_basename += 1
     n_tagloader = 0
     for c in cases[n_fixed:]:
-        if len(c) <= 4 and r.random() < 0.025:     # the plain chain again, also through the tag-dispatching loaders
+        if len(c) <= 4 and r.random() < (0.025 if not thorough else 0.012):     # the plain chain again, also through the tag-dispatching loaders
             c4 = tuple(c) + ((True,) if len(c) == 3 else ())
             cases.append(c4[:4] + ({"tagloader": True},))
             n_tagloader += 1
@@ -1495,7 +1495,7 @@ def main(chk: C.Check, build: C.Build) -> None:
     # loader histories: one ChoiceLoader / CachingChoiceLoader object, the higher-priority delegate changes
     n_choice = 0
     pool = [c for c in cases[n_fixed:] if len(c[0]) > 2 and not (len(c) > 4 and c[4])]
-    for c in r.sample(pool, min(len(pool), 60 if not thorough else 1000)):
+    for c in r.sample(pool, min(len(pool), 60 if not thorough else 700)):
         h = choice_history_case(r, c)
         if h is not None:
             cases.append(h)
@@ -1503,7 +1503,7 @@ def main(chk: C.Check, build: C.Build) -> None:
     # auto-reload through the tags: a parent / grand-parent is edited on disk between two renders
     n_history = 0
     pool = [c for c in cases[n_fixed:] if len(c[0]) > 1 and not (len(c) > 4 and (c[4].get("before") or c[4].get("choice")))]
-    for c in r.sample(pool, min(len(pool), 70 if not thorough else 1000)):
+    for c in r.sample(pool, min(len(pool), 70 if not thorough else 700)):
         h = edited_history(r, c)
         if h is not None:
             cases.append(h)
